@@ -37,6 +37,13 @@ Theorem C07_alias :
   assoc_bytes reg_GetFilters b#"escape" = Some b#"filterEscape".
 Proof. exact C07_alias_proof. Qed.
 
+(* escape applied to escaped text, any number of times (v|e|e ...): n decodings give back the input and no layer
+   leaves a raw special byte *)
+Theorem C07_iterated : forall (n : nat) (s : bytes),
+  Nat.iter n unescape (Nat.iter n escape s) = s /\
+  (forall c, In c (Nat.iter (S n) escape s) -> c <> c_lt /\ c <> c_gt /\ c <> c_dq /\ c <> c_sq).
+Proof. exact C07_iterated_proof. Qed.
+
 (* non-vacuity: a string containing all five characters and an invalid UTF-8 byte *)
 Example C07_example :
   escape [x3c; x61; x26; x22; x27; x3e; xff] = b#"&lt;a&amp;&#34;&#39;&gt;" ++ [xff].
@@ -48,3 +55,4 @@ Print Assumptions C07_roundtrip.
 Print Assumptions C07_other_bytes_unchanged.
 Print Assumptions C07_fallback.
 Print Assumptions C07_alias.
+Print Assumptions C07_iterated.
